@@ -348,6 +348,7 @@ def o10(h, st):
 
 @contract("C03", "O11.combinatorial_hcb.spectrum", level="B", native_samples=lambda st, rnd, tier: [{"seed": rnd.randint(0, 999)}],
           structures=lambda tier: [{"enc": "combinatorial", "n_orb": k, "na": a, "nb": b} for k in (2, 3) for a in range(0, k + 1) for b in range(0, k + 1) if (a, b) != (0, 0)][:: 1 if tier != "quick" else 2]
+          + [{"enc": "combinatorial", "n_orb": 4, "na": a, "nb": b} for a, b in ([(1, 2), (2, 1)] if tier == "quick" else [(1, 2), (2, 1), (1, 3), (3, 2), (2, 2), (2, 3)])]
           + [{"enc": "hcb", "n_orb": k} for k in (2, 3)],
           targets=[(CB, "combinatorial"), (CB, "recursive_mapping"), (CB, "int_to_tuple"), (HC, "hard_core_boson_operator"), (HC, "boson_to_qubit_mapping")])
 def o11(h, st):
